@@ -105,6 +105,68 @@ def confirm(name: str, src: str) -> int:
         shutil.rmtree(tmp, ignore_errors=True)
 
 
+def confirm_neutral(name: str, src: str) -> int:
+    """A behaviour-preserving refactoring produced independently: every check must stay silent on it."""
+    patch = os.path.join(src, "patch.diff")
+    equiv = os.path.join(src, "equiv_test.py")
+    meta_p = os.path.join(src, "meta.json")
+    if not os.path.isfile(patch):
+        print(f"missing {patch}")
+        return 2
+    meta = json.load(open(meta_p)) if os.path.isfile(meta_p) else {}
+    tmp = tempfile.mkdtemp(prefix="vstatic-seed-")
+    wt = os.path.join(tmp, "wt")
+    try:
+        sh(["git", "-C", REPO, "worktree", "add", "-q", "--detach", wt, "HEAD"])
+        env = dict(os.environ, PYTHONDONTWRITEBYTECODE="1")
+        os.makedirs(os.path.join(wt, "out"), exist_ok=True)
+        rc0 = 0
+        companions = [f for f in os.listdir(src) if f not in ("patch.diff", "meta.json") and os.path.isfile(os.path.join(src, f))
+                      and os.path.getsize(os.path.join(src, f)) < 4_000_000]
+        for f in companions:
+            shutil.copy(os.path.join(src, f), os.path.join(wt, "out", f))
+        if os.path.isfile(equiv):
+            rc0, out0 = sh([PY, "-m", "pytest", "-q", "-p", "no:cacheprovider", "out/equiv_test.py"], cwd=wt, env=env)
+        rc, out = sh(["git", "-C", wt, "apply", "--whitespace=nowarn", patch])
+        if rc:
+            print("patch does not apply:\n" + out)
+            return 2
+        rc1, out1 = sh([PY, "-m", "pytest", "-q", "-p", "no:cacheprovider", "tests"], cwd=wt, env=env)
+        rc2 = 0
+        if os.path.isfile(equiv):
+            rc2, out2 = sh([PY, "-m", "pytest", "-q", "-p", "no:cacheprovider", "out/equiv_test.py"], cwd=wt, env=env)
+        suite_line = out1.strip().splitlines()[-1] if out1.strip() else ""
+        print(f"{name}: equiv tests on clean tree rc={rc0}; suite with refactoring rc={rc1} ({suite_line}); equiv tests with refactoring rc={rc2}")
+        if rc0 or rc1 or rc2:
+            print("NOT CONFIRMED as behaviour preserving")
+            return 1
+        checks = run_checks(wt, os.path.join(tmp, "out"))
+        alarms = sorted(p for p, r in checks.items() if r["exit"] == 1)
+        errors = sorted(p for p, r in checks.items() if r["exit"] == 2)
+        dest = os.path.join(VERIF, "seeded", name)
+        os.makedirs(dest, exist_ok=True)
+        shutil.copy(patch, os.path.join(dest, "patch.diff"))
+        for f in companions:
+            shutil.copy(os.path.join(src, f), os.path.join(dest, f))
+        meta.update({"name": name, "kind": "neutral-refactor",
+                     "confirmed": {"test_suite_with_change": suite_line, "equiv_tests_pass_on_both": True},
+                     "checks_reporting_violation": alarms, "checks_analysis_error": errors,
+                     "reports": {p: checks[p]["fails"][:3] for p in alarms},
+                     "error_reports": {p: checks[p]["errors"][:1] for p in errors}})
+        json.dump(meta, open(os.path.join(dest, "meta.json"), "w"), indent=1)
+        print(f"  false alarms: {alarms or 'none'}   analysis errors: {errors or 'none'}")
+        for p in alarms:
+            for ln in checks[p]["fails"][:3]:
+                print(f"    {p}: {ln[:260]}")
+        for p in errors:
+            for ln in checks[p]["errors"][:1]:
+                print(f"    {p}: {ln[:260]}")
+        return 0
+    finally:
+        sh(["git", "-C", REPO, "worktree", "remove", "--force", wt])
+        shutil.rmtree(tmp, ignore_errors=True)
+
+
 def rerun() -> int:
     root = os.path.join(VERIF, "seeded")
     bad = 0
@@ -123,6 +185,7 @@ def rerun() -> int:
                 continue
             meta = json.load(open(os.path.join(d, "meta.json")))
             target = meta.get("property")
+            neutral = meta.get("kind") == "neutral-refactor"
             props = sorted(set([target] + meta.get("checks_reporting_violation", []))) if target else PROPS
             checks = run_checks(wt, os.path.join(tmp, "out"), PROPS)
             caught = sorted(p for p, r in checks.items() if r["exit"] == 1)
@@ -132,9 +195,13 @@ def rerun() -> int:
             meta["reports"] = {p: checks[p]["fails"][:2] for p in caught}
             meta["error_reports"] = {p: checks[p]["errors"][:1] for p in errors}
             json.dump(meta, open(os.path.join(d, "meta.json"), "w"), indent=1)
-            hit = target in caught
-            print(f"{name}: target {target} {'CAUGHT' if hit else 'MISSED'}; reporting: {caught}; errors: {errors}")
-            bad += 0 if hit else 1
+            if neutral:
+                print(f"{name}: neutral refactoring; false alarms: {caught}; analysis errors: {errors}")
+                bad += 1 if caught else 0
+            else:
+                hit = target in caught
+                print(f"{name}: target {target} {'CAUGHT' if hit else 'MISSED'}; reporting: {caught}; errors: {errors}")
+                bad += 0 if hit else 1
         finally:
             sh(["git", "-C", REPO, "worktree", "remove", "--force", wt])
             shutil.rmtree(tmp, ignore_errors=True)
@@ -144,6 +211,8 @@ def rerun() -> int:
 if __name__ == "__main__":
     if len(sys.argv) >= 4 and sys.argv[1] == "confirm":
         sys.exit(confirm(sys.argv[2], sys.argv[3]))
+    if len(sys.argv) >= 4 and sys.argv[1] == "confirm-neutral":
+        sys.exit(confirm_neutral(sys.argv[2], sys.argv[3]))
     if len(sys.argv) >= 2 and sys.argv[1] == "rerun":
         sys.exit(rerun())
     print(__doc__)
